@@ -2,6 +2,8 @@
 C17 — where and how operations are written does not change the generated code.
 -/
 import Genq.Model.Files
+import Genq.Model.GenSkel
+import Genq.Extracted.Gen
 namespace Genq.Files
 
 /-- **C17_collect_perm** — enumerating the same files in another order gives the validator and
@@ -58,3 +60,10 @@ example : scanUp ["  # @genqlient(pointer: true)".toList, "# doc".toList, "query
     ["  # @genqlient(pointer: true)".toList, "# doc".toList] := by decide
 
 end Genq.Files
+
+namespace Genq
+/-- **C17_expandFilenames_tie** — which files are read (glob expansion, de-duplication by full path, sorting) is the
+    function the layout theorems assume: the skeleton of expandFilenames extracted from /repo on this run equals the
+    committed one. -/
+theorem C17_expandFilenames_tie : Extracted.expandFilenamesSkeleton = GenSkel.expandFilenamesSkeleton := rfl
+end Genq
